@@ -127,7 +127,7 @@ example : normRun 2 1 false false "  \n\n\n\t-- c \n    ".toUTF8.toList = "\n\n 
 example : normRun 2 1 false false "\n\n".toUTF8.toList = "\n\n  ".toUTF8.toList := by decide +kernel   -- blank line stays empty (defect 25)
 
 /-- **C10.fmt_pipeline_known**: the sequence of regular-expression substitutions of `LuaFormatterWriter._get_code_for_spaces`, read from
-the syntax tree of lua.py on every run (`Gen.fmtPipelines`: pattern and constant replacement of every `re.sub`, in source order), is the
+the syntax tree of lua.py on every run (`Gen.fmtPipelines`: pattern, constant replacement and any further argument — a count, flags — of every `re.sub`, in source order), is the
 one `normRun` transcribes: tab → space; CR LF, LF CR, CR → LF; trailing spaces; the comment-leading substitutions for `--` and `//`;
 the end-of-input ones; blank-line runs; the final trailing-blank rule. An edit of that list (a pattern widened, two rules merged or
 reordered) breaks this obligation at once, whether or not a generated program shows a difference. -/
